@@ -37,5 +37,13 @@ Definition check_life (prop : Z) (inp impl : sx) : sx :=
             && (if h_opened h then Nat.eqb (length handles) 1 else Nat.eqb (length handles) 0) in
           if agree then verdict V_OK cls [] (L []) else verdict V_DIVERGE cls [] (L [A (match r with LOk => 0 | LErr true => 1 | LErr false => 2 end)])
       end
+  | L [A 16; A serial; A k; A dur; A dd], L [A status; A kept; A res_nil] =>
+      (* the k-th SendProbe fails after [dur] in flight; the destination answers TTL 1 after [dd] *)
+      let reached := if serial =? 0 then (k =? 1) || ((k - 1) * 10000000 <? dd)
+                     else (k =? 1) || ((250000000 <? dd) && (k <=? 2)) in
+      let cls := 2 + 4 * k + (if serial =? 0 then 0 else 64) in
+      if (prop =? 10) && reached && negb ((status =? 1) && (kept =? 1) && (res_nil =? 1)) then verdict V_SPECFAIL cls [10; 4] (L [])
+      else if (prop =? 10) && (status =? 1) && negb ((kept =? 1) && (res_nil =? 1)) then verdict V_SPECFAIL cls [10; 2] (L [])
+      else if Bool.eqb reached (status =? 1) then verdict V_OK cls [] (L []) else verdict V_DIVERGE cls [] (of_bool reached)
   | _, _ => badcase
   end.
